@@ -285,7 +285,7 @@ func VerifConsts() map[string]int {
 		"encryptOverhead0": encryptOverhead(0), "encryptOverhead1": encryptOverhead(1),
 		"versionSize": versionSize, "nonceSize": nonceSize, "tagSize": tagSize, "blockSize": blockSize,
 		"maxEncryptionVersion": int(maxEncryptionVersion),
-		"maxPushStateBytes": maxPushStateBytes, "maxPushStateNodes": maxPushStateNodes,
+		"maxPushStateBytes":    maxPushStateBytes, "maxPushStateNodes": maxPushStateNodes,
 		"maxUserMsgBytes": maxUserMsgBytes, "maxPushPullRequests": maxPushPullRequests,
 		"maxDecompressedBytes": maxDecompressedBytes, "MetaMaxSize": MetaMaxSize,
 		"LabelMaxSize": LabelMaxSize, "ProtocolVersionMin": int(ProtocolVersionMin),
@@ -295,7 +295,9 @@ func VerifConsts() map[string]int {
 }
 
 // VerifEncryptedLength wraps encryptedLength.
-func VerifEncryptedLength(vsn uint8, inp int) int { return encryptedLength(encryptionVersion(vsn), inp) }
+func VerifEncryptedLength(vsn uint8, inp int) int {
+	return encryptedLength(encryptionVersion(vsn), inp)
+}
 
 // VerifMakeCompoundMessage wraps makeCompoundMessage.
 func VerifMakeCompoundMessage(msgs [][]byte) []byte { return makeCompoundMessage(msgs).Bytes() }
@@ -326,7 +328,9 @@ func VerifPkcs7Valid(buf []byte, blockSize int) bool { return pkcs7valid(buf, bl
 func VerifPkcs7Decode(buf []byte, blockSize int) []byte { return pkcs7decode(buf, blockSize) }
 
 // VerifIngestPacket wraps ingestPacket.
-func VerifIngestPacket(m *Memberlist, buf []byte, from net.Addr, ts time.Time) { m.ingestPacket(buf, from, ts) }
+func VerifIngestPacket(m *Memberlist, buf []byte, from net.Addr, ts time.Time) {
+	m.ingestPacket(buf, from, ts)
+}
 
 // VerifHandleConn wraps handleConn (one inbound stream, synchronously).
 func VerifHandleConn(m *Memberlist, conn net.Conn) { m.handleConn(conn) }
@@ -399,4 +403,6 @@ func VerifDecompressPayload(msg []byte) ([]byte, error) { return decompressPaylo
 func VerifQueueBroadcast(m *Memberlist, name string, msg []byte) { m.queueBroadcast(name, msg, nil) }
 
 // VerifGetBroadcasts wraps getBroadcasts (membership queue plus user delegate).
-func VerifGetBroadcasts(m *Memberlist, overhead, limit int) [][]byte { return m.getBroadcasts(overhead, limit) }
+func VerifGetBroadcasts(m *Memberlist, overhead, limit int) [][]byte {
+	return m.getBroadcasts(overhead, limit)
+}
